@@ -21,7 +21,7 @@ EXPLANATION = (
     "original does not raise is a counterexample (missing attributes after load)."
     ' The HMC step-size tuner is saved mid-assessment (arbitrary running sums, an earlier adjustment on record) and every item of its reported state must come back with the saved value.'
 )
-BOUNDS = {"quick": "dimension <=2, history <=2 stored points, one continuation step (<=1 retry per coordinate); with constructor bounds the continuation is not re-run (the fold is deterministic and checked by C04): read-outs, bounds and the selected proposal/trajectory mode are compared", "thorough": "adds 2 retries and a vector-mass variant (matrix mass with a continuation step is undecided within 120 s)"}
+BOUNDS = {"quick": "dimension <=2, history <=2 stored points, one continuation step (<=1 retry per coordinate); with constructor bounds the continuation is not re-run (the fold is deterministic and checked by C04): read-outs, bounds and the selected proposal/trajectory mode are compared", "thorough": "adds 2 retries and a vector-mass variant in one dimension (two-dimensional continuation steps with vector or matrix mass are undecided within 120 s)"}
 ASSUMPTIONS = [
     "npz contract instead of the real zip/pickle layer (dtype narrowing on disk outside); replays use the real numpy.savez/load",
     "the reloaded sampler is given the same random draws as the original (twin recording generators)",
@@ -209,7 +209,7 @@ def pca_save_load_continue(h, d, bounded, hist, updated):
         _cleanup(tmp)
 
 
-@unit("C09", quick=[dict(d=1, mass="scalar", bounded=False), dict(d=2, mass="vector", bounded=True)], thorough=[dict(d=2, mass="vector", bounded=False)],
+@unit("C09", quick=[dict(d=1, mass="scalar", bounded=False), dict(d=2, mass="vector", bounded=True)], thorough=[dict(d=1, mass="vector", bounded=False)],
       max_paths=4000, cost=6)
 def hmc_save_load_continue(h, d, mass, bounded):
     import inference.mcmc.hmc as hmc
